@@ -66,14 +66,18 @@ impl AvroFormat for AvroOcfFormat {
         // Choose the Avro schema JSON that the file will advertise.
         // If `schema.metadata[SCHEMA_METADATA_KEY]` exists, AvroSchema::try_from
         // uses it verbatim; otherwise it is generated from the Arrow schema.
-        let avro_schema = AvroSchema::from_arrow_with_options(
-            schema,
-            Some(AvroSchemaOptions {
-                null_order: None,
-                strip_metadata: true,
-            }),
-        )
-        .map_err(|e| AvroError::SchemaError(format!("{e:?}")))?;
+        let avro_schema = match schema.metadata.get(SCHEMA_METADATA_KEY) {
+            // A user-supplied Avro schema is what the records are encoded with: advertise it verbatim
+            Some(json) => AvroSchema::new(json.clone()),
+            None => AvroSchema::from_arrow_with_options(
+                schema,
+                Some(AvroSchemaOptions {
+                    null_order: None,
+                    strip_metadata: true,
+                }),
+            )
+            .map_err(|e| AvroError::SchemaError(format!("{e:?}")))?,
+        };
         // Magic
         writer.write_all(b"Obj\x01")?;
         // File metadata map: { "avro.schema": <json>, "avro.codec": <codec> }
